@@ -5,7 +5,7 @@ import tempfile
 from harness import tlc
 
 BASE = dict(NT=2, NW=2, MaxRep=2, MaxRuns=2, MaxFail=1, Kind="pause", Async=True, Wait=False, Del=True,
-            FailB=1, ExtB=0, CKind="script", K=0, EmptyExit=False, MayExhaust=False, R3=True, R13=True, R8=True)
+            FailB=1, ExtB=0, CKind="script", K=0, EmptyExit=False, MayExhaust=False, R3=True, R13=True, R8=True, Sjwd=True)
 
 ALL_INVARIANTS = {
     "C01": ["WorkerBudget", "IdsInSequence", "LifeCycle", "ResumeOnlyPaused", "CallbackProtocol"],
@@ -23,7 +23,7 @@ FLAG_INV = {
     "protocol_add": "CallbackProtocol", "protocol_remove": "CallbackProtocol", "protocol_complete": "CallbackProtocol",
     "protocol_error": "CallbackProtocol", "error_after_remove": "CallbackProtocol", "protocol_resume": "CallbackProtocol",
     "result_outside_run": "CallbackProtocol", "remove_without_decision": "CallbackProtocol",
-    "result_after_end": "CallbackProtocol",
+    "result_after_end": "CallbackProtocol", "completed_unregistered": "CompleteMeansAll",
     "gap_or_dup": "DeliveredIsPrefix", "phantom": "DeliveredIsPrefix", "after_decision": "NothingAfterDecision",
     "stale_hidden_tail": "ResumeStartsNewRun", "stale_duplicate": "ResumeStartsNewRun",
     "complete_missing": "CompleteMeansAll", "complete_not_exited": "CompleteMeansAll",
@@ -36,6 +36,7 @@ FLAG_INV = {
     "stop_without_decision": "StopPauseDecided", "pause_without_decision": "StopPauseDecided",
 }
 PROP_FLAGS = {p: sorted(f for f, i in FLAG_INV.items() if i in invs) for p, invs in ALL_INVARIANTS.items()}
+PROP_FLAGS["C01"] = sorted(set(PROP_FLAGS["C01"]) | {"completed_unregistered"})                 # CallbackProtocol
 PROP_FLAGS["C13"] = sorted(set(PROP_FLAGS["C13"]) | {"protocol_error", "unexpected_exception"})   # FailureNotifiedOnce
 
 
@@ -52,6 +53,8 @@ def mc_configs(tier):
     c["crit_finished"] = dict(BASE, NT=3, Kind="stop", MaxRuns=1, CKind="finished", K=1, FailB=1, MaxFail=2)
     c["crit_evals"] = dict(BASE, NT=2, Kind="pause", CKind="evals", K=2, FailB=0)
     c["exhaust"] = dict(BASE, NT=2, Kind="pause", MayExhaust=True, FailB=0)
+    c["ask_backend"] = dict(BASE, NT=3, Kind="stop", MaxRuns=1, FailB=1, Sjwd=False)
+    c["ask_backend_pause"] = dict(BASE, NT=2, Kind="pause", FailB=0, Sjwd=False)
     c["pbt_3t"] = dict(BASE, NT=3, Kind="pbt", MaxRuns=1, FailB=0)
     if tier == "thorough":
         c["pause_3t"] = dict(BASE, NT=3)
